@@ -3,9 +3,14 @@ Line protocol of the nested-inline model (C09).
   ipara <nodes> <ws> <wb> <ow> <fs> <lh> <cbx> <width> <indent> <all> <last> <y>
      nodes ::= ((t <text>) | (b <ls> <rs> <deco> (nodes…)) …)
      → ((x y w h (frags…)) …),  frag ::= (t <text> x w) | (b x w ls rs (frags…))
+  pmin <nodes> <ws> <wb> <ow> <fs> <indent> <outer> <first_line> <is_line_start> <skip>  → inline_min_content_width
+  pmax <nodes> <ws> <wb> <ow> <fs> <indent> <outer> <is_line_start>                     → inline_max_content_width
+  ptws <nodes> <ws> <wb> <ow> <fs>                                                      → trailing_whitespace_size
+     skip ::= none | (index skip)
 -/
 import WpModel.Model.Wire
 import WpModel.Model.InlineRun
+import WpModel.Model.InlinePreferred
 import WpModel.Drive.LineBreak
 
 namespace Wp.Drive.InlineRun
@@ -24,8 +29,26 @@ partial def fragSx : Frag → Sx
 def lineSx (l : IR.OutLine) : Sx :=
   .list [sxRat l.x, sxRat l.y, sxRat l.w, sxRat l.h, .list (l.kids.map fragSx)]
 
+partial def skip? : Sx → Option (Option Skip)
+  | .atom "none" => some none
+  | .list [i, sub] => do
+    pure (some (.mk (← i.nat?) (← skip? sub)))
+  | _ => none
+
+def ratOut (r : Except PyErr Rat) : String := render (r.map sxRat)
+
 def handle (cmd : String) (args : List Sx) : Option String :=
   match cmd, args with
+  | "pmin", [.list nodes, ws, wb, ow, fs, indent, outer, firstLine, ils, skip] => do
+    let st ← style? ws wb ow fs
+    pure (ratOut (IP.minContentWidth st (← allSome node? nodes) (← indent.rat?) (← outer.bool?) (← firstLine.bool?)
+      (← ils.bool?) (← skip? skip)))
+  | "pmax", [.list nodes, ws, wb, ow, fs, indent, outer, ils] => do
+    let st ← style? ws wb ow fs
+    pure (ratOut (IP.maxContentWidth st (← allSome node? nodes) (← indent.rat?) (← outer.bool?) (← ils.bool?)))
+  | "ptws", [.list nodes, ws, wb, ow, fs] => do
+    let st ← style? ws wb ow fs
+    pure (ratOut (IP.trailingWhitespaceSize st (← allSome node? nodes)))
   | "ipara", [.list nodes, ws, wb, ow, fs, lh, cbx, width, indent, all, last, y] => do
     let st ← style? ws wb ow fs
     let a : AlignStyle := { alignAll := ← all.atom?.bind Align.ofCss?, alignLast := ← alignLast? last,
